@@ -751,6 +751,7 @@ func Conclude(id, level string, o Opts, cov map[string]interface{}, assumptions 
 	violations := 0
 	knownHits := []string{}
 	failList := []interface{}{}
+	os.RemoveAll(filepath.Join(Root, "replays", id)) // replays belong to the run that wrote them
 	os.MkdirAll(filepath.Join(Root, "replays", id), 0755)
 	for _, sig := range sortedKeys(fails) {
 		f := fails[sig]
